@@ -49,8 +49,7 @@ Init ==
   /\ o = NoOp /\ r = Res("ok", d)
 
 L0 == d.layers[1]
-OpsOf ==
-  LET w == L0.w  h == L0.h IN
+OpsFor(w, h) ==
   {Op0(n) : n \in AreaOps \cup ScrollOps \cup {"erase_selection", "crop"}}
   \cup {Op1(n, y) : n \in LineOps, y \in 0..(h - 1)}
   \cup {Op2(n, x, y) : n \in EraseOps, x \in 0..(w - 1), y \in 0..(h - 1)}
@@ -59,6 +58,7 @@ OpsOf ==
   \cup {[op |-> "set_char", a |-> <<x, y>>, c |-> c] : x \in 0..w, y \in 0..(h - 1), c \in Alphabet}
   \cup {[op |-> "swap_char", a |-> <<t[1][1], t[1][2], t[2][1], t[2][2]>>, c |-> Inv] :
           t \in {u \in ((0..(w - 1)) \X (0..(h - 1))) \X ((0..w) \X (0..(h - 1))) : u[2][2] > u[1][2] \/ (u[2][2] = u[1][2] /\ u[2][1] >= u[1][1])}}
+OpsOf == OpsFor(L0.w, L0.h)
 
 Ap(dd, oo) == Apply(dd, oo, MX, MY)
 Next == o.op = "init" /\ \E oo \in OpsOf : o' = oo /\ d' = d /\ r' = Ap(d, oo)
@@ -187,6 +187,16 @@ CharLaws ==
   /\ Ok /\ o.op = "swap_char" /\ Plain /\ o.a[3] < L0.w => SameDoc(Ap(r.d, o).d, d)
 
 \* ---------------------------------------------------------------------------------------------- generator (R2)
-\* one case per state reached by one operation: the document, the operation and what the model expects
-Emit == Done => PrintT(<<"WITNESS", ToJson([d |-> d, o |-> o])>>)
+\* Gen_Area.cfg: every (document, operation) pair is an initial state of GenSpec, exported once per class of GenView:
+\* the visible space CS differs from the letter CA only in being blank for justify / center, so for every other operation the
+\* documents are exported with CS read as CA (one representative per class).
+JFamily == {"justify_left", "justify_right", "center"} \cup LineOps
+Coarse(dd) == [dd EXCEPT !.layers[1].g = [j \in 1..Len(@) |-> [i \in 1..Len(@[j]) |-> IF @[j][i] = CS THEN CA ELSE @[j][i]]]]
+GenInit ==
+  \E s \in Sizes : \E g \in [1..s[2] -> [1..s[1] -> Alphabet]] : \E sel \in {<<>>} \cup SelsIn(s[1], s[2]) \cup SelsExtra(s[1], s[2]) :
+    \E oo \in OpsFor(s[1], s[2]) :
+      /\ d = Doc(s[1], s[2], g, sel, <<0, 0>>) /\ o = oo /\ r = Ap(d, oo)
+GenSpec == GenInit /\ [][FALSE]_vars
+GenView == <<IF o.op \in JFamily THEN d ELSE Coarse(d), o>>
+Emit == PrintT(<<"WITNESS", ToJson([d |-> d, o |-> o])>>)
 =============================================================================
